@@ -126,14 +126,28 @@ class Realised:
             cl = self._make_class2(ci, c)
         finally:
             self._building = None
-        if c.get("recursive") == "name":
-            # forward references by name are resolved in the namespace of the defining module
+        if c.get("recursive") == "name" or c.get("strann"):
+            # forward references by name / stringified annotations are resolved in the namespace of the defining module
             cl.__module__ = __name__
-            globals()[cl.__name__] = cl
-            _injected.append(cl.__name__)
-            while len(_injected) > 400:
-                globals().pop(_injected.pop(0), None)
+            self._inject(cl, cl.__name__)
         return cl
+
+    def _inject(self, obj, name=None):
+        """make obj available under a name in this module's namespace (where string annotations are evaluated)"""
+        if name is None:
+            name = f"_T{self.uid}_{next(_uid)}"
+        if globals().get(name) is not obj:
+            globals()[name] = obj
+            _injected.append(name)
+            while len(_injected) > 4000:
+                globals().pop(_injected.pop(0), None)
+        return name
+
+    def _fty(self, c, f):
+        """the annotation of a field: the type object, or (classes with stringified annotations) its source text"""
+        if c.get("strann"):
+            return self._ty_src(f["ty"]) if f["ty"] is not None else "typing.Any"
+        return self.ty(f["ty"]) if f["ty"] is not None else Any
 
     def _make_class2(self, ci, c):
         name = f"K{self.uid}_{ci}"
@@ -155,9 +169,12 @@ class Realised:
                 ns.update(dfl)
 
             return types.new_class(name, (typing.NamedTuple,), {}, body)
+        bases = (self.classes[c["base"]],) if c.get("base") is not None else None
         if kind == "attrs":
             flds = {}
             for f in c["fields"]:
+                if f.get("inherited"):
+                    continue
                 kw = {}
                 d = self._default(f["dflt"])
                 if d is not None:
@@ -170,14 +187,18 @@ class Realised:
                 if f.get("kw_only"):
                     kw["kw_only"] = True
                 if f["ty"] is not None:
-                    kw["type"] = Final if f.get("bare_final") else self.ty(f["ty"])
+                    kw["type"] = Final if f.get("bare_final") else self._fty(c, f)
                 if f.get("idconv"):
                     kw["converter"] = _ident
                 flds[f["name"]] = attrs.field(**kw)
+            if bases:
+                return attrs.make_class(name, flds, bases=bases, frozen=c["frozen"], slots=c.get("slots", True))
             return attrs.make_class(name, flds, frozen=c["frozen"], slots=c.get("slots", True))
         if kind == "dc":
             flds = []
             for f in c["fields"]:
+                if f.get("inherited"):
+                    continue
                 kw = {}
                 d = self._default(f["dflt"])
                 if d is not None:
@@ -189,10 +210,12 @@ class Realised:
                     kw["init"] = False
                 if f.get("kw_only"):
                     kw["kw_only"] = True
-                t = self.ty(f["ty"]) if f["ty"] is not None else Any
+                t = self._fty(c, f)
                 if f.get("bare_final"):
                     t = Final
                 flds.append((f["name"], t, dataclasses.field(**kw)))
+            if bases:
+                return dataclasses.make_dataclass(name, flds, bases=bases, frozen=c["frozen"])
             return dataclasses.make_dataclass(name, flds, frozen=c["frozen"])
         raise ValueError(kind)
 
@@ -291,16 +314,26 @@ class Realised:
         if isinstance(t, str):
             return {"any": "typing.Any"}.get(t, t)
         k = t[0]
-        if k in ("cls", "td"):
+        if k in ("cls", "td", "nt"):
+            if t[1] != self._building and t[1] < len(self.classes):
+                self._inject(self.classes[t[1]], self.classes[t[1]].__name__)
             return f"K{self.uid}_{t[1]}"
         one = {"list": "list[%s]", "seq": "typing.Sequence[%s]", "mseq": "typing.MutableSequence[%s]", "tup*": "tuple[%s, ...]",
-               "opt": "typing.Optional[%s]"}
+               "opt": "typing.Optional[%s]", "deque": "collections.deque[%s]", "set": "set[%s]",
+               "mset": "typing.MutableSet[%s]", "fset": "frozenset[%s]", "final": "typing.Final[%s]",
+               "ann": "typing.Annotated[%s, 'meta']"}
         if k in one:
             return one[k] % self._ty_src(t[1])
         two = {"dict": "dict[%s, %s]", "map": "typing.Mapping[%s, %s]", "mmap": "typing.MutableMapping[%s, %s]"}
         if k in two:
             return two[k] % (self._ty_src(t[1]), self._ty_src(t[2]))
-        raise Unrepresentable(t)
+        if k == "tup":
+            return "tuple[%s]" % (", ".join(self._ty_src(x) for x in t[1]) if t[1] else "()")
+        if self._building is not None and _mentions(t, self._building):
+            raise Unrepresentable(t)
+        # enums, literals, NewTypes, type aliases, unions: the realised object under a module-level name (as user code
+        # would refer to `Color`, `UserId`, ...)
+        return self._inject(self.ty(t))
 
     # ------------------------------------------------------------------ values
     def val(self, o):
